@@ -15,7 +15,6 @@
 package main
 
 import (
-	"verif/harness/internal/srcsel"
 	"bytes"
 	"flag"
 	"fmt"
@@ -28,6 +27,7 @@ import (
 	"path/filepath"
 	"sort"
 	"strings"
+	"verif/harness/internal/srcsel"
 )
 
 type kernelSpec struct {
@@ -83,8 +83,13 @@ func loadPkgWith(dir string, imp types.Importer) (*pkgInfo, error) {
 	if err != nil {
 		return nil, err
 	}
+	var pkgNames []string
 	for _, pk := range parsed {
-		if strings.HasSuffix(pk.Name, "_test") || pk.Name == "main" {
+		if strings.HasSuffix(pk.Name, "_test") {
+			continue
+		}
+		pkgNames = append(pkgNames, pk.Name)
+		if pk.Name == "main" && len(parsed) > 1 {
 			continue
 		}
 		p.name = pk.Name
@@ -118,6 +123,9 @@ func loadPkgWith(dir string, imp types.Importer) (*pkgInfo, error) {
 		}
 	}}
 	conf.Check(dir, p.fset, p.files, p.info) // import errors are expected; errors inside a kernel are checked later
+	if err := checkPkgDecls(p, pkgNames); err != nil {
+		return nil, err
+	}
 	return p, nil
 }
 
@@ -237,9 +245,30 @@ var coqReserved = map[string]bool{
 	"sw_tag": true, "res": true, "Ok": true, "Err": true, "Panic": true, "fuel": true, "tt": true, "unit": true, "list": true, "Go": true,
 }
 
+// coqName: the Coq name of a Go identifier.  INJECTIVE, and disjoint from every name the translator makes up:
+// every generated name (temporaries t<k>_ / k<k>_, shadowing renames x_<k>, loop / switch helpers sw<k>_, a_, b_,
+// r_, v_, k_, st_, i_nat, sw_tag, the escapes of reserved words x_, names derived from paths such as
+// bf_msgFilterLoad_Filter, cs_isnil, T_nil, heap_Tx, pkg_Var) contains an underscore and no prime; a Go
+// identifier that contains an underscore is therefore written with a prime appended (done_2 -> done_2'),
+// which no Go identifier and no generated name can be.  Go identifiers without underscore are used as they
+// are, except the words reserved below (fuel, Ok, in, ...), which get an underscore.
+// synthMark prefixes the Go-side name of every pseudo-variable the translator itself creates (switch tags,
+// range keys, receiver-field paths, the heap table): a prime cannot occur in a Go identifier, so such an
+// object can never be confused with a variable of the source; coqName strips the mark.
+const synthMark = "'"
+
 func coqName(s string) string {
-	if coqReserved[s] || strings.HasSuffix(s, "_nat") {
+	if s == "_" {
+		return s
+	}
+	if strings.HasPrefix(s, synthMark) {
+		return s[len(synthMark):] // a name made up by the translator (see synthMark)
+	}
+	if coqReserved[s] {
 		return s + "_"
+	}
+	if strings.Contains(s, "_") {
+		return s + "'"
 	}
 	return s
 }
@@ -1326,6 +1355,7 @@ func (c *ctx) translate() (out string, err error) {
 		}
 	}()
 	fn := c.fn
+	c.checkLocalNames5()
 	if fn.Type.TypeParams != nil {
 		c.fail(fn, "generic function")
 	}
